@@ -188,7 +188,6 @@ func fixup(o any) {
 	switch r := o.(type) {
 	case *rhp3.RPCExecuteProgramResponse:
 		r.OutputLength = uint64(len(r.Output))
-		r.Error = nil
 	case *rhp3.RPCExecuteProgramRequest:
 		if len(r.Program) > 6 {
 			r.Program = r.Program[:6]
